@@ -1,12 +1,12 @@
 import os
 import vf
 
-FILES = ["web/zz_verif_c36_test.go", "web/zz_verif_c36gen_test.go", "web/zz_verif_c36routes_test.go", "web/zz_verif_c36resp_test.go"]
+FILES = ["web/zz_verif_c36_test.go", "web/zz_verif_c36gen_test.go", "web/zz_verif_c36routes_test.go", "web/zz_verif_c36resp_test.go", "web/zz_verif_c36funcs_test.go"]
 
 SPEC = dict(
     level="proof",
     harness=dict(pkg_dir="web", run="TestVerifC36$", files=FILES, n_quick=140, n_thorough=1500),
-    runner=dict(imports=["From Coq Require Import String.", "From ZV Require Import Lib.Base Model.Web Model.WebResp Model.WebRun."],
+    runner=dict(imports=["From Coq Require Import String.", "From ZV Require Import Lib.Base Model.Web Model.WebResp Model.WebFuncs Model.WebRun."],
                 case_type="c36xcase", mismatch_fn="c36x_mismatches", shard=150),
     extra_targets=("Model/WebRun.vo",),
     rule="A: 1-3 generated file matches x 0-3 line matches (line 0-12 bytes over an alphabet with markup, quotes, newline, invalid "
@@ -52,7 +52,7 @@ def _gen(ctx):
     g = vf.go_harness(ctx, "web", "TestVerifC36Gen$", FILES, 1, out_name="gen.jsonl", timeout=600)
     texts = {r["file"]: r["text"] for r in g["records"] if r.get("kind") == "gen"}
     gen_dir = os.path.join(vf.COQ, "Generated")
-    ok = g["rc"] == 0 and "WebPages.v" in texts and "WebSinks.v" in texts and "WebRoutes.v" in texts
+    ok = g["rc"] == 0 and all(f in texts for f in ("WebPages.v", "WebSinks.v", "WebRoutes.v", "WebFuncs.v"))
     if not ok:
         # make the obligations fail loudly instead of silently re-using stale tables
         ctx.notes.append("translator failed: " + g["log"][-1500:])
@@ -70,6 +70,10 @@ def _gen(ctx):
                            "Definition routes : list route := [{| rt_pat := \"translator-failed\"; rt_handler := \"\"; rt_guard := \"\" |}].\n"
                            "Definition resp_sinks : list rsink := [].\n"
                            "Definition sniff_sigs : list sniffsig := [SUnknownSig \"translator failed\"].\n",
+            "WebFuncs.v": "(* translator failed *)\nFrom Coq Require Import String.\nFrom ZV Require Import Lib.Base Model.Web Model.WebFuncs.\n"
+                          "Local Open Scope string_scope.\n"
+                          "Definition funcmap : list fdecl := [{| fd_name := \"translator-failed\"; fd_params := [TyUnknown]; fd_results := [TyUnknown] |}].\n"
+                          "Definition func_calls : list fsite := [{| fs_tmpl := \"translator-failed\"; fs_func := \"\"; fs_args := [] |}].\n",
         }
     for name, text in texts.items():
         vf.write_if_changed(os.path.join(gen_dir, name), text)
